@@ -34,20 +34,21 @@ var configs = map[string]Config{
 
 // Program is the loaded, type-checked and SSA-lowered repository.
 type Program struct {
-	Cfg       Config
-	Repo      string
-	Fset      *token.FileSet
-	Pkgs      []*packages.Package // all packages incl. deps
-	Circl     []*packages.Package // circl packages only
-	ByPath    map[string]*packages.Package
-	SSA       *ssa.Program
-	SSAPkg    map[string]*ssa.Package
-	AllFuncs  map[*ssa.Function]bool
-	cg        *callgraph.Graph
-	NFuncs    int // circl functions with bodies
-	sentinels map[*ssa.Global]bool
-	dep       *depEngine
-	mod       *modEngine
+	Cfg            Config
+	Repo           string
+	Fset           *token.FileSet
+	Pkgs           []*packages.Package // all packages incl. deps
+	Circl          []*packages.Package // circl packages only
+	ByPath         map[string]*packages.Package
+	SSA            *ssa.Program
+	SSAPkg         map[string]*ssa.Package
+	AllFuncs       map[*ssa.Function]bool
+	cg             *callgraph.Graph
+	NFuncs         int // circl functions with bodies
+	sentinels      map[*ssa.Global]bool
+	dep            *depEngine
+	mod            *modEngine
+	exportedIfaces []*types.Interface
 }
 
 func loadProgram(repo string, cfg Config) (*Program, error) {
